@@ -1,5 +1,10 @@
 pub mod kv;
 pub mod c01;
+pub mod c02;
+pub mod c06;
+pub mod c08;
+pub mod c09;
+pub mod lines;
 
 use crate::report::{Run, Violation};
 use crate::seq::{names, SeqConfig, SeqModel, SeqResult};
@@ -16,6 +21,9 @@ pub fn seq_report<M: SeqModel>(run: &mut Run, m: &M, res: &SeqResult, cfg: &SeqC
     run.cov("depth_bound", json!(cfg.max_depth));
     run.cov("depth_completed", json!(res.depth_completed));
     run.cov("frontier_sizes", json!(res.frontier_sizes));
+    if res.leaf_successors > 0 {
+        run.cov_add("leaf_successor_states_checked", res.leaf_successors);
+    }
     run.cov("exhaustive", json!(res.exhausted_bound && res.depth_completed >= cfg.max_depth));
     if let Some(c) = &res.cap_hit {
         run.cov("cap_hit", json!(c));
@@ -37,6 +45,10 @@ pub fn seq_report<M: SeqModel>(run: &mut Run, m: &M, res: &SeqResult, cfg: &SeqC
 pub fn dispatch(run: &mut Run) -> bool {
     match run.property.as_str() {
         "C01" => c01::run(run),
+        "C02" => c02::run(run),
+        "C06" => c06::run(run),
+        "C08" => c08::run(run),
+        "C09" => c09::run(run),
         _ => return false,
     }
     true
